@@ -1,6 +1,7 @@
 (* C10 -- a view is a complete and stable snapshot of everything imported.
    Statements over EVERY action sequence of the model in theories/Indexes.v (imports, also queued while
-   another import runs; views opened at any moment; any interleaving with merge and tagging jobs).
+   another import runs; views opened at any moment; any interleaving with merge, tagging and converter jobs,
+   tag add / delete / redefinition, converter attach / detach / removal; from the empty directory or after a restart).
    The merge function is a Section variable constrained by exactly what property C07 establishes for
    index.Merge ("merging is invisible"); theories/Indexes.v's concrete merge_ents meets the hypotheses
    (C10_concrete_merge_meets_hypotheses), so the corollaries at the end are closed theorems. *)
@@ -16,8 +17,18 @@ Variable merge : list file -> list entry.    (* what index.Merge writes *)
 Hypothesis merge_lookup : forall fs id, find_ent id (merge fs) = lookup_vis fs id.
 Hypothesis merge_sub : forall fs e, In e (merge fs) -> In e (ents_of fs).
 Hypothesis merge_nodup : forall fs, files_ok fs -> NoDup (map e_id (merge fs)).
+(* Start state: any state that satisfies the three invariants -- the empty directory (init) and what manager.New loads
+   from an index directory whose files represent the captures processed so far (C10_start_states_are_valid below). *)
+Variable junk : list N.
+Variable st0 : state.
+Hypothesis start13 : inv13 junk st0.
+Hypothesis start10 : inv10 capdb bad merge st0.
+Hypothesis startF : files_ok (indexes st0).
 
-Let run (rf : bool) (acts : list action) : state := fold_left (step capdb bad rf merge) acts init.
+Let run (rf : bool) (acts : list action) : state := fold_left (step capdb bad rf merge) acts st0.
+Let I10 (rf : bool) (acts : list action) := run_inv10_st0 capdb bad merge merge_lookup merge_sub junk st0 start13 start10 rf acts.
+Let F10 (rf : bool) (acts : list action) :=
+  run_files_ok_st0 capdb bad merge merge_lookup merge_sub merge_nodup junk st0 start13 start10 startF rf acts.
 
 (* The newest-version-wins map of the service list = every stream of every processed capture, in the
    version that all processed captures together give it -- whatever merges have happened. *)
@@ -28,7 +39,7 @@ Theorem C10_service_list_is_newest_version_of_everything_processed : forall rf a
      e_ver e = total_bytes capdb (processed st) (e_flow e)) /\
   (forall fl, in_caps capdb (processed st) fl = true ->
      exists e, lookup_vis (indexes st) (e_id e) = Some e /\ e_flow e = fl).
-Proof. intros rf acts. exact (v_spec _ _ _ _ (run_inv10 capdb bad merge merge_lookup merge_sub rf acts)). Qed.
+Proof. intros rf acts. exact (v_spec _ _ _ _ (I10 rf acts)). Qed.
 
 (* ... exactly once: two visible entries never belong to the same stream *)
 Theorem C10_every_stream_exactly_once : forall rf acts id1 id2 e1 e2,
@@ -37,7 +48,7 @@ Theorem C10_every_stream_exactly_once : forall rf acts id1 id2 e1 e2,
   e_flow e1 = e_flow e2 -> id1 = id2.
 Proof.
   intros rf acts id1 id2 e1 e2.
-  exact (visible_once _ id1 id2 e1 e2 (v_ids _ _ _ _ (run_inv10 capdb bad merge merge_lookup merge_sub rf acts))).
+  exact (visible_once _ id1 id2 e1 e2 (v_ids _ _ _ _ (I10 rf acts))).
 Qed.
 
 (* View.AllStreams enumerates exactly that map, every stream id once *)
@@ -47,8 +58,8 @@ Theorem C10_AllStreams_enumerates_the_visible_map : forall rf acts e,
   NoDup (map e_id (all_streams (indexes st))).
 Proof.
   intros rf acts e. split.
-  - exact (all_streams_lookup _ e (run_files_ok capdb bad merge merge_lookup merge_sub rf merge_nodup acts)).
-  - exact (merge_ents_nodup _ (run_files_ok capdb bad merge merge_lookup merge_sub rf merge_nodup acts)).
+  - exact (all_streams_lookup _ e (F10 rf acts)).
+  - exact (merge_ents_nodup _ (F10 rf acts)).
 Qed.
 
 (* A view opened at any moment holds the service list of that moment (hence, by the theorems above,
@@ -60,7 +71,7 @@ Theorem C10_view_is_complete_and_stable_snapshot : forall acts1 acts2 v,
   view_of v (views st1) = None -> (forall a, In a acts2 -> a <> ARelease v) ->
   view_of v (views st2) = Some (indexes st1) /\
   (forall f, In f (indexes st1) -> In (f_uid f) (disk st2)).
-Proof. intros acts1 acts2 v. exact (view_snapshot capdb bad merge acts1 acts2 v). Qed.
+Proof. intros acts1 acts2 v. exact (view_snapshot capdb bad merge junk st0 start13 acts1 acts2 v). Qed.
 
 (* The property in one statement: whatever happens between opening a view and releasing it, AllStreams
    through the view returns every stream of every capture processed before it was opened, exactly once, in the
@@ -78,7 +89,7 @@ Theorem C10_view_answers_complete_exactly_once_newest_and_constant : forall acts
     (forall f, In f s -> In (f_uid f) (disk st2)).
 Proof.
   intros acts1 acts2 v.
-  exact (view_answers capdb bad merge merge_lookup merge_sub merge_nodup acts1 acts2 v).
+  exact (view_answers capdb bad merge merge_lookup merge_sub merge_nodup junk st0 start13 start10 startF acts1 acts2 v).
 Qed.
 
 End C10.
@@ -90,6 +101,16 @@ Theorem C10_concrete_merge_meets_hypotheses :
   (forall fs, files_ok fs -> NoDup (map e_id (merge_ents fs))).
 Proof. exact (conj merge_ents_lookup (conj merge_ents_sub merge_ents_nodup)). Qed.
 
+(* The two start states satisfy the hypotheses of the section: the empty directory, and manager.New on a directory
+   whose loadable files fs (in name order) hold exactly the newest versions of the captures P (what restart/crash
+   recovery must guarantee is property C12), with distinct file names, unloadable files junk left in place. *)
+Theorem C10_start_states_are_valid : forall capdb bad merge,
+  (inv13 [] init /\ inv10 capdb bad merge init /\ files_ok (indexes init)) /\
+  (forall fs junk P, NoDup (map f_uid fs ++ junk) -> spec_ok capdb P fs -> ids_ok fs -> files_ok fs ->
+     inv13 junk (init_from capdb fs junk P) /\ inv10 capdb bad merge (init_from capdb fs junk P) /\
+     files_ok (indexes (init_from capdb fs junk P))).
+Proof. intros. exact (conj (start_init capdb bad merge) (start_from capdb bad merge)). Qed.
+
 (* Closed corollary for the instance that is extracted and run against the Go code. *)
 Theorem C10_extracted_model_service_list_complete : forall capdb bad acts,
   let st := fold_left (step_impl capdb bad) acts init in
@@ -100,7 +121,8 @@ Theorem C10_extracted_model_service_list_complete : forall capdb bad acts,
      exists e, lookup_vis (indexes st) (e_id e) = Some e /\ e_flow e = fl).
 Proof.
   intros capdb bad acts.
-  exact (C10_service_list_is_newest_version_of_everything_processed capdb bad merge_ents merge_ents_lookup merge_ents_sub false acts).
+  destruct (start_init capdb bad merge_ents) as (A & B & _).
+  exact (C10_service_list_is_newest_version_of_everything_processed capdb bad merge_ents merge_ents_lookup merge_ents_sub [] init A B false acts).
 Qed.
 
 Theorem C10_extracted_model_view_answers : forall capdb bad acts1 acts2 v,
@@ -116,8 +138,9 @@ Theorem C10_extracted_model_view_answers : forall capdb bad acts1 acts2 v,
     (forall f, In f s -> In (f_uid f) (disk st2)).
 Proof.
   intros capdb bad acts1 acts2 v.
+  destruct (start_init capdb bad merge_ents) as (A & B & C).
   exact (C10_view_answers_complete_exactly_once_newest_and_constant capdb bad merge_ents
-           merge_ents_lookup merge_ents_sub merge_ents_nodup acts1 acts2 v).
+           merge_ents_lookup merge_ents_sub merge_ents_nodup [] init A B C acts1 acts2 v).
 Qed.
 
 (* The code before /repo 7300a1b (View.fetch tested `len(v.indexes) != 0`): a view opened on an empty
